@@ -962,6 +962,21 @@ func run(c *vf.Ctx) {
 						x.Violate("purity|sub-second-timestamp|verdict", fmt.Sprintf("a header stamped %v (median of its ancestors %v) and its encoded form (whole seconds, same id) get different verdicts from ValidateHeader: %v vs %v", hdr.Timestamp.UTC(), med.UTC(), e1, e2), path)
 					}
 					c.Count("sub_second_timestamp_verdict_probes", 1)
+					// a time-lock policy after(T): only the whole seconds of T are part of the policy (its address, its
+					// encoding, its text form). T in memory with a sub-second part between the whole second and the median
+					// against its decoded form - same address, so the same output is being spent - alone and as a threshold branch
+					for _, wrap := range []bool{false, true} {
+						mem := types.PolicyAfter(time.Unix(med.Unix(), 0).Add(700 * time.Millisecond))
+						dec := types.PolicyAfter(time.Unix(med.Unix(), 0))
+						if wrap {
+							mem, dec = types.PolicyThreshold(1, []types.SpendPolicy{mem}), types.PolicyThreshold(1, []types.SpendPolicy{dec})
+						}
+						v1, v2 := mem.Verify(st.Index.Height, med, types.Hash256{}, nil, nil), dec.Verify(st.Index.Height, med, types.Hash256{}, nil, nil)
+						if mem.Address() == dec.Address() && (v1 == nil) != (v2 == nil) {
+							x.Violate("purity|sub-second-timestamp|policy-verdict", fmt.Sprintf("policy after(T) with T = %v held in memory and its encoded form (whole seconds, same address %v) get different verdicts at median timestamp %v: %v vs %v", time.Unix(med.Unix(), 0).Add(700*time.Millisecond).UTC(), dec.Address(), med.UTC(), v1, v2), path)
+						}
+						c.Count("sub_second_policy_verdict_probes", 1)
+					}
 				}
 			}
 			// the same block and supplement with every element carrying the library's "shared memory" mark (Share()):
